@@ -3,6 +3,7 @@
 SPECIFICATION Spec
 CONSTANTS
   Modes = {"udp"}
+  LogLevels = {"info"}
   MaxPkts = 3
   ValidateKnown = FALSE
   TcpDests <- BehTcpDests
